@@ -51,6 +51,10 @@ QueriesC1 == { QDense(FALSE), Q("sample") }
 GatesI2 == { G("H", <<0>>, e0, e0), G("H", <<1>>, e0, e0), G("IDEN", <<1>>, <<0>>, e0), G("CX", <<0, 1>>, e0, e0) }
 QueriesI2 == { QPtr(<<1>>), QExp("X", <<1>>), QMarg(<<1>>, <<>>) }
 
+\* depth 4 (thorough tier): the quick alphabet without the raw gate, the plain IDEN, uni and amp
+GatesE2t == GatesE2q \ { G("R2A", <<1, 0>>, e0, e0), G("IDEN", <<1>>, e0, e0) }
+QueriesE2t == QueriesE2q \ { Q("uni"), QAmp(<<0, 1>>) }
+
 (* ---- exhaustive, exact Circuit, N = 3 *)
 GatesE3 == { G("H", <<0>>, e0, e0), G("T", <<2>>, e0, e0), G("CX", <<0, 2>>, e0, e0), G("CX", <<2, 1>>, e0, e0),
              G("SWAP", <<0, 2>>, e0, e0), G("SWAP", <<1, 2>>, e0, e0), G("IDEN", <<1>>, e0, e0),
